@@ -395,6 +395,23 @@ def execute(plan: Dict[str, Any]) -> Dict[str, Any]:
                                     f"E{E}M{M} srbits={srbits} g={float(x[src[i]])!r} draw={int(r[i])}: quantise -> {float(out[i])!r}, "
                                     f"gradient through quantise_bwd -> {float(via_bwd[i])!r} (format #{fi} of this process)")
                 probe("autograd_wrappers_compared")
+                # a tensor that came OUT of quantise, was then overwritten in place (a residual
+                # update, an optimiser step) and is quantised again: rounded like any other input
+                seam.keyed = r
+                seam.requests.clear()
+                y = fmt.quantise(xin.detach().clone())
+                x2 = xin.detach().clone().reshape(-1).roll(1).reshape(xin.shape)
+                y.copy_(x2)
+                seam.keyed = r
+                again = fmt.quantise(y).detach().reshape(-1)
+                seam.keyed = r
+                fresh = fmt.quantise(x2.clone()).detach().reshape(-1)
+                if not torch.equal(again, fresh):
+                    i = int((again != fresh).nonzero()[0][0])
+                    raise Violation("neighbour", "requantised_tensor_not_rounded",
+                                    f"E{E}M{M} srbits={srbits}: a quantise() output overwritten in place with {float(x2.reshape(-1)[i])!r} "
+                                    f"and quantised again gives {float(again[i])!r}, a fresh tensor with the same value gives {float(fresh[i])!r}")
+                probe("requantised_after_inplace_update")
                 npos = len(src) if layout == 3 else min(m, 24)
                 for i in (list(range(min(npos, 12))) + list(range(max(npos - 12, 12), npos))):
                     seam.keyed = r[i:i + 1]
